@@ -285,11 +285,27 @@ def guarded(s, rec, **kw):
     try:
         return check_string(s, rec, **kw)
     except _Hang:
+        pass
+    finally:
+        signal.setitimer(signal.ITIMER_PROF, 0)
+    # 2 s of CPU time were not enough.  A selector that really never finishes does so every
+    # time; a one-off stall of a long-running shard (a full garbage collection over a large
+    # heap, say) does not: decide on a second attempt with ten times the budget.
+    _cleanup()
+    SLOW["retries"] += 1
+    signal.setitimer(signal.ITIMER_PROF, 10.0)
+    try:
+        return check_string(s, rec, **kw)
+    except _Hang:
         raise PropertyViolation(
-            "termination", f"compiling {s!r} produced no result within 2 s of CPU time", extra={"bucket": "hang"}
+            "termination", f"compiling {s!r} produced no result within 2 s and, tried again, within 10 s of CPU time",
+            extra={"bucket": "hang"}
         )
     finally:
         signal.setitimer(signal.ITIMER_PROF, 0)
+
+
+SLOW = {"retries": 0}
 
 
 COMPANION = "f > a"  # a valid, focused selector sharing the probe with a faulty one
@@ -636,11 +652,15 @@ def shard(cfg):
                 s = build(v.case)
                 kw = {}
             viol[v.extra.get("bucket", v.clause)] = violation_record(PROPERTY, v, {"string": s, "kw": kw})
+        if SLOW["retries"]:
+            rec.count("slow-first-attempt-retried", SLOW["retries"])
         res = rec.result()
         res["violations"] = list(viol.values())
         if herr:
             res["harness_errors"] = [herr]
         return res
+    if SLOW["retries"]:
+        rec.count("slow-first-attempt-retried", SLOW["retries"])
     res = rec.result()
     res["violations"] = list(viol.values())
     return res
